@@ -26,8 +26,8 @@ structure Norm3DInfo where
   plane : Nat × Nat × Nat
   line : Nat × Nat
 
-/-- one frame and person: the list of points → the normalised list of points -/
-def normalize3DPerson (sc : Scalar S) [Inhabited S] (info : Norm3DInfo) (size : S) (pts : List (V3S S)) : List (V3S S) :=
+/-- change of basis around the first plane point: coordinates of every point along `x = z × y`, `y = x₀ × z`, `z = normal / |normal|` -/
+def stage1 (sc : Scalar S) [Inhabited S] (info : Norm3DInfo) (pts : List (V3S S)) : List (V3S S) :=
   let at' (i : Nat) : V3S S := pts.getD i default
   let t0 := at' info.plane.1
   let v1 := v3sub sc (at' info.plane.2.1) t0
@@ -37,17 +37,20 @@ def normalize3DPerson (sc : Scalar S) [Inhabited S] (info : Norm3DInfo) (size : 
   let z : V3S S := (sc.div n.1 len, sc.div n.2.1 len, sc.div n.2.2 len)
   let y := v3cross sc (sc.ofNat 1, sc.zero, sc.zero) z
   let x := v3cross sc z y
-  -- change of basis around the first plane point
-  let rot1 := pts.map fun p => let q := v3sub sc p t0; (v3dot sc q x, v3dot sc q y, v3dot sc q z)
-  -- in-plane rotation that puts the line's projection on the negative Y axis
+  pts.map fun p => let q := v3sub sc p t0; (v3dot sc q x, v3dot sc q y, v3dot sc q z)
+
+/-- in-plane rotation that puts the line's projection on the negative Y axis (`cos θ = −v_y / r`, `sin θ = v_x / r`) -/
+def stage2 (sc : Scalar S) [Inhabited S] (info : Norm3DInfo) (rot1 : List (V3S S)) : List (V3S S) :=
   let l1 := rot1.getD info.line.1 default
   let l2 := rot1.getD info.line.2 default
   let v := v3sub sc l2 l1
   let r := sc.sqrt (sc.add (sc.mul v.1 v.1) (sc.mul v.2.1 v.2.1))
   let cosT := sc.div (sc.neg v.2.1) r
   let sinT := sc.div v.1 r
-  let rot2 := rot1.map fun p => (sc.add (sc.mul cosT p.1) (sc.mul sinT p.2.1), sc.add (sc.mul (sc.neg sinT) p.1) (sc.mul cosT p.2.1), p.2.2)
-  -- scale by the 3-D length of the line, then move its first point to the origin
+  rot1.map fun p => (sc.add (sc.mul cosT p.1) (sc.mul sinT p.2.1), sc.add (sc.mul (sc.neg sinT) p.1) (sc.mul cosT p.2.1), p.2.2)
+
+/-- scale by `size / |line|₃`, then move the first line point to the origin -/
+def stage3 (sc : Scalar S) [Inhabited S] (info : Norm3DInfo) (size : S) (rot2 : List (V3S S)) : List (V3S S) :=
   let m1 := rot2.getD info.line.1 default
   let m2 := rot2.getD info.line.2 default
   let cur := v3norm sc (v3sub sc m2 m1)
@@ -55,6 +58,10 @@ def normalize3DPerson (sc : Scalar S) [Inhabited S] (info : Norm3DInfo) (size : 
   let scaled := rot2.map (v3scale sc s)
   let origin := scaled.getD info.line.1 default
   scaled.map fun p => v3sub sc p origin
+
+/-- one frame and person: the list of points → the normalised list of points -/
+def normalize3DPerson (sc : Scalar S) [Inhabited S] (info : Norm3DInfo) (size : S) (pts : List (V3S S)) : List (V3S S) :=
+  stage3 sc info size (stage2 sc info (stage1 sc info pts))
 
 /-- the whole body: every frame and person independently; the mask is kept and the result zero-filled. `none`: fewer than 3 coordinates. -/
 def normalize3DBody (sc : Scalar S) (isZero : S → Bool) [Inhabited S] (info : Norm3DInfo) (size : S) (b : PBody S) : Option (A4 S × A4 Bool) :=
